@@ -229,6 +229,11 @@ def checkQueries (cfg : Config) (m : MState) (q : Queries) : MState :=
   let m := match m.pending.find? (fun (r : Ref) => (q.canonAt r.num).getD r.id != r.id) with
     | some r => if hasMask cfg .new && hasMask cfg .irreversible then m.fail "C18" s!"CanonicalBlockAt({r.num}) is not the consumer's block {r.id}" else m
     | none => m
+  -- … and on the final blocks of the consumer's chain that are still retained (kept final blocks)
+  let m := match m.stack.find? (fun (r : Ref) => q.ids.contains r.id && !(m.pending.any (·.id == r.id)) &&
+      (q.canonAt r.num).getD r.id != r.id) with
+    | some r => if hasMask cfg .new && hasMask cfg .irreversible then m.fail "C18" s!"CanonicalBlockAt({r.num}) is not the retained final block {r.id} of the consumer's chain" else m
+    | none => m
   -- lowest servable number = bottom of the contiguous retained chain ending at the head
   let m := match q.lowest with
     | none => m.fail "C18" "LowestBlockNum crashed"
